@@ -169,8 +169,6 @@ def _frame_obs(ex, c, s, old, ln):
         a0, n0 = old.heap.get(key, (arr, na))
         if arr.eq(a0) and (na is None or na.eq(n0)):
             continue
-        if ex.schema[key].ghost:
-            continue
         al = allowed.get(key, [])
         if al == "*":
             continue
@@ -189,7 +187,7 @@ def _frame_obs(ex, c, s, old, ln):
             same = z3.And(same, z3.Select(na, r) == z3.Select(n0, r))
             # the value under a None flag is irrelevant
             same = z3.Or(same, z3.And(z3.Select(na, r), z3.Select(n0, r)))
-        goal = z3.ForAll([r], z3.Implies(z3.And(*[z3.Or(r != t, z3.Not(cnd)) for t, cnd in al]) if al else z3.BoolVal(True), same))
+        goal = z3.ForAll([r], z3.Implies(z3.And(r != NONE, *[z3.Or(r != t, z3.Not(cnd)) for t, cnd in al]), same))
         if star_conds.get(key):
             goal = z3.Or(goal, *star_conds[key])
         _add(ex, "%s.frame[%s]%s" % (c.name, key, "@L%s" % ln if ln else "@end"), s.pc, goal, ln, "frame")
